@@ -591,7 +591,8 @@ def gen_history(rng, stream):
     if rng.random() < 0.12:
         pos = rng.randint(0, len(ops))
         pair = gen_alias_pair(rng, n_parsers)
-        case["ops"] = ops[:pos] + pair[:1] + ops[pos:pos + rng.randint(0, 2)] + pair[1:] + ops[pos:][2:]
+        k = rng.randint(0, 2)
+        case["ops"] = ops[:pos] + pair[:1] + ops[pos:pos + k] + pair[1:] + ops[pos + k:]
         case["pristine"] = True       # always compared with the pristine interpreter
     return case
 
